@@ -210,6 +210,18 @@ func (m *Model) ev(role string, n *N, env *MEnv) res {
 	return r
 }
 
+// badExpansion: `*`/`**` applied to a value that cannot be unpacked ends the literal or the
+// argument list on the spot with TypeErr (operands written after it are not evaluated).
+func (m *Model) badExpansion(op string, v Val) res {
+	switch v.T {
+	case "int", "nil", "bool":
+		s, _ := v.toS()
+		m.raisePath = strings.Join(m.path, ">")
+		return raise(&MErr{"TypeErr", "cannot use `" + op + "` unpacking for `" + s + "`"})
+	}
+	return m.giveUp(op + " of a value the model does not print")
+}
+
 func (m *Model) giveUp(why string) res {
 	if m.unsure == "" {
 		m.unsure = why
@@ -437,7 +449,7 @@ func (m *Model) eval(n *N, env *MEnv) res {
 			}
 			if len(n.Star) > i && n.Star[i] == 1 {
 				if r.v.T != "arr" {
-					return m.giveUp("* of non-array")
+					return m.badExpansion("*", r.v)
 				}
 				out.E = append(out.E, r.v.E...)
 			} else {
@@ -463,7 +475,7 @@ func (m *Model) eval(n *N, env *MEnv) res {
 			}
 			if len(n.Star) > i && n.Star[i] == 2 {
 				if r.v.T != "obj" {
-					return m.giveUp("** of non-object")
+					return m.badExpansion("**", r.v)
 				}
 				for j, k := range r.v.K {
 					add(k, r.v.V[j])
@@ -783,12 +795,12 @@ func (m *Model) args(n *N, env *MEnv) ([]Val, []kwarg, res) {
 			switch {
 			case len(n.Star) > i && n.Star[i] == 1:
 				if r.v.T != "arr" {
-					return m.giveUp("* of non-array")
+					return m.badExpansion("*", r.v)
 				}
 				pos = append(pos, r.v.E...)
 			case is2:
 				if r.v.T != "obj" {
-					return m.giveUp("** of non-object")
+					return m.badExpansion("**", r.v)
 				}
 				for j, k := range r.v.K {
 					addKw(&unpacked, k, r.v.V[j])
